@@ -1,20 +1,21 @@
 #!/bin/bash
-# tools/runseeded.sh [name-prefix...] : apply every seeded change to /repo in turn, run the checks that are
+# tools/runseeded.sh [name-prefix...] : apply every seeded change to /repo (or $VERIF_REPO) in turn, run the checks that are
 # recorded as detecting it (quick tier), expect exit 1 with a VIOLATION line, undo. Writes seeded/RESULTS.txt.
 export VERIF_NO_EVIDENCE=1
+REPO="${VERIF_REPO:-/repo}"   # a copy of the repository may be used instead (vp run --with-repo: VERIF_REPO=$VP_RUN_REPO)
 cd "$(dirname "$0")/.."
 out=seeded/RESULTS.txt; : > $out.tmp
 for d in seeded/M*; do
   n=$(basename $d)
   if [ $# -gt 0 ]; then ok=0; for p in "$@"; do case $n in $p*) ok=1;; esac; done; [ $ok = 1 ] || continue; fi
   checks=$(python3 -c "import json;print(' '.join(json.load(open('$d/meta.json'))['detected_by_checks']))")
-  git -C /repo checkout -q -- . ; git -C /repo apply "$PWD/$d/patch.diff" || { echo "$n: patch does not apply" | tee -a $out.tmp; continue; }
+  git -C "$REPO" checkout -q -- . ; git -C "$REPO" apply "$PWD/$d/patch.diff" || { echo "$n: patch does not apply" | tee -a $out.tmp; continue; }
   for c in $checks; do
     s=$(date +%s); o=$(./check $c quick 2>&1); rc=$?
     v=$(echo "$o" | grep -c '^VIOLATION')
     echo "$n $c rc=$rc violation_lines=$v t=$(( $(date +%s) - s ))s" | tee -a $out.tmp
   done
-  git -C /repo checkout -q -- .
+  git -C "$REPO" checkout -q -- .
 done
-git -C /repo status --short
+git -C "$REPO" status --short
 mv $out.tmp $out
